@@ -111,6 +111,11 @@ structure Cfg where
       answer cannot be applied (its metadata delta is refused) or holds no decision for that trial (fixed);
       at the pinned commit the record stays ACTIVE in both cases -/
   esAnswerFinishesOp : Bool := true
+  /-- `SuggestTrials` RESUMES an operation of the asking worker that is not done (only a server that died
+      inside `SuggestTrials` leaves one): it runs the same steps as for a fresh operation, with the abandoned
+      operation's number and without `create_suggestion_operation` (fixed); at the pinned commit the
+      abandoned operation is returned unchanged, for ever -/
+  resumesAbandonedOp : Bool := true
   deriving Repr, DecidableEq
 
 def Cfg.fixed : Cfg :=
@@ -305,23 +310,34 @@ def pythiaStage (cfg : Cfg) (op0 : SugOp) (st : Study) (need : Nat) (out : List 
     if !r.1 then failOp op0 r.2
     else createStage cfg op0 r.2 need out sugg
 
+/-- `SuggestTrials` once the operation record `op0` exists (`st` already holds it in `sugOps`): count the
+    worker's ACTIVE trials, take REQUESTED ones, ask the algorithm for the rest, finish the operation
+    (`update_suggestion_operation` with `op0`'s worker and number) -/
+def suggestRest (cfg : Cfg) (op0 : SugOp) (st : Study) (client : String) (count : Nat) (alg : AlgOutcome) :
+    Resp × Study :=
+  let active := st.trials.filter fun t => t.state == .active && t.client == client
+  if active.length ≥ count then finishOp op0 st (active.take count)
+  else
+    let pool := st.trials.filter (·.state == .requested)
+    let assigned := assignRequested client (count - active.length) pool
+    let st := assigned.foldl Study.putTrial st
+    let out := active ++ assigned
+    if out.length == count then finishOp op0 st out
+    else pythiaStage cfg op0 st (count - out.length) out alg
+
 /-- `SuggestTrials` after the immutability check, under the operation lock -/
 def suggestBody (cfg : Cfg) (st : Study) (client : String) (count : Nat) (alg : AlgOutcome) : Resp × Study :=
   let ops := opsOf st client
   match ops.find? (fun o => !o.done) with
-  | some o => (.op client o (match o.result with | .trials ids => trialsByIds st ids | _ => []), st)
+  | some o =>
+    -- an operation of this worker that is not done: left behind by a server that died inside SuggestTrials
+    if cfg.resumesAbandonedOp then
+      -- `output_op = active_op_list[0]`, then the steps of a fresh operation; no `create_suggestion_operation`
+      suggestRest cfg { o with client := client } st client count alg
+    else (.op client o (match o.result with | .trials ids => trialsByIds st ids | _ => []), st)
   | none =>
     let op0 : SugOp := { client := client, num := ops.length + 1, done := false, result := .none }
-    let st := { st with sugOps := st.sugOps ++ [op0] }
-    let active := st.trials.filter fun t => t.state == .active && t.client == client
-    if active.length ≥ count then finishOp op0 st (active.take count)
-    else
-      let pool := st.trials.filter (·.state == .requested)
-      let assigned := assignRequested client (count - active.length) pool
-      let st := assigned.foldl Study.putTrial st
-      let out := active ++ assigned
-      if out.length == count then finishOp op0 st out
-      else pythiaStage cfg op0 st (count - out.length) out alg
+    suggestRest cfg op0 { st with sugOps := st.sugOps ++ [op0] } client count alg
 
 def esOpOf (st : Study) (id : Nat) : Option EsOp := st.esOps.find? (·.trialId == id)
 
